@@ -1087,6 +1087,15 @@ func (e *Engine) ExecPath(s *Solver, harness *ssa.Function, prefix []int, mapOrd
 							panic(q)
 						}
 					}()
+					if r.Env["exit-needs-stderr"] == true {
+						said := len(r.Stderr) > 0
+						for _, e := range r.Effects {
+							if e.Op == "print:stderr" {
+								said = true
+							}
+						}
+						r.assertCond("failure-has-a-message-on-stderr", said, "os.Exit("+toString(p.code)+") with nothing written to standard error")
+					}
 					if want, ok := r.Env["expect-exit"]; ok {
 						r.assertCond("exit-status", r.eqv(types.Typ[types.Int], p.code, want), "os.Exit("+toString(p.code)+")")
 					} else {
